@@ -5,7 +5,7 @@
    space identities 1 x = x, a (b x) = (a b) x), so the C12 theorems about cg_step, cgn_step, pmn_step,
    fb_step are theorems about code regenerated from source.  A changed sign, operand, step-size
    update or a missing copy in one of those loop bodies makes one of these proofs fail. *)
-From Coq Require Import Reals Lra List Bool.
+From Coq Require Import Reals Lra Psatz List Bool.
 From Verif Require Import Base.Num C12.Model C12.Space C12.ProofsLin C12.ProofsNonsmooth Gen.SolversC12.
 Import ListNotations.
 Local Open Scope R_scope.
@@ -147,3 +147,71 @@ Proof.
   rewrite E. reflexivity.
 Qed.
 End GenBT.
+
+(* douglas_rachford_pd (branch len(L) > 0, l = None): the regenerated step and callback iterate are the model's.
+   The two accumulation loops over the operators are recognised by the translator as the fold sum_adj0. *)
+Lemma map2_ext {A B C : Type} (f g : A -> B -> C) : (forall a b, f a b = g a b) ->
+  forall l m, map2 f l m = map2 g l m.
+Proof. intros E l; induction l as [|a l IH]; intros [|b m]; cbn; try reflexivity. rewrite E, IH. reflexivity. Qed.
+
+Section GenDR.
+Variables X Y : IPS.
+Variable proxF : R -> X -> X.
+
+Theorem gen_dr_p1_is_model (bs : list (pblk X Y)) (tau : R) (s : X * list Y) :
+  gen_dr_p1 X Y vplus smul proxF (map (mk X Y) bs) tau s = dr_p1 X Y vplus smul proxF (map (mk X Y) bs) tau s.
+Proof.
+  destruct s as [x vs]. unfold gen_dr_p1, dr_p1, two. numR. rewrite smul_1.
+  replace (- tau / 2) with (- (tau / 2)) by field. reflexivity.
+Qed.
+
+Theorem gen_dr_step_is_model (bs : list (pblk X Y)) (tau lam : R) (s : X * list Y) :
+  gen_dr_step X Y vplus smul vplus smul proxF (map (mk X Y) bs) tau lam s
+  = dr_step X Y vplus smul vplus smul proxF (map (mk X Y) bs) tau lam s.
+Proof.
+  destruct s as [x vs]. unfold gen_dr_step, dr_step, dr_p1, two. numR.
+  replace (- tau / 2) with (- (tau / 2)) by field.
+  rewrite !smul_1.
+  set (p1 := proxF tau (x +' - (tau / 2) *' sum_adj0 X Y vplus smul (map (mk X Y) bs) vs x)).
+  set (w1 := 2 *' p1 +' - (1) *' x).
+  rewrite (map2_ext (fun b v => gen_dr_blk_p2 X Y vplus smul b w1 v)
+                    (fun b v => bproxGc X Y b (bsigma X Y b) (v +' bsigma X Y b / 2 *' bA X Y b w1))) by
+    (intros b v; unfold gen_dr_blk_p2; numR; rewrite smul_1; reflexivity).
+  set (p2 := map2 (fun b v => bproxGc X Y b (bsigma X Y b) (v +' bsigma X Y b / 2 *' bA X Y b w1)) (map (mk X Y) bs) vs).
+  rewrite (map2_ext (fun p v => gen_dr_blk_w2 Y vplus smul p v) (fun p v => 2 *' p +' - (1) *' v)) by
+    (intros p v; reflexivity).
+  set (w2 := map2 (fun p v => 2 *' p +' - (1) *' v) p2 vs).
+  set (z1 := w1 +' - (tau / 2) *' sum_adj0 X Y vplus smul (map (mk X Y) bs) w2 x).
+  f_equal.
+  rewrite (map2_ext (fun vz p => gen_dr_blk_v2 Y vplus smul lam vz p) (fun vz p => vz +' - lam *' p)) by
+    (intros vz p; unfold gen_dr_blk_v2; numR; rewrite smul_1; reflexivity).
+  f_equal.
+  rewrite (map2_ext (fun v z => gen_dr_blk_v1 Y vplus smul lam v z) (fun v z => v +' lam *' z)) by
+    (intros v z; unfold gen_dr_blk_v1; numR; rewrite smul_1; reflexivity).
+  f_equal.
+  generalize (2 *' z1 +' - (1) *' w1); intro q1. generalize w2; intro ws. clear.
+  revert ws; induction bs as [|b bs IH]; intros [|w ws]; cbn [map map2]; try reflexivity.
+  rewrite IH. f_equal. unfold gen_dr_blk_z2. cbn [bproxLc bsigma bA mk]. numR. rewrite smul_1. reflexivity.
+Qed.
+End GenDR.
+
+(* every x_norm of the regenerated power-method step is bounded, and |x| = 1 is preserved *)
+Lemma gen_pm_normal_step_bounded :
+  forall (X Y : IPS) (A : LinOp X Y) (K : R) (x : X) (nrm : R) (x' : X),
+  0 <= K -> bounded X Y A (K * K) -> nsq x = 1 ->
+  gen_pm_normal_step X Y smul inner sqrt A (adj A) x = Some (nrm, x') ->
+  0 <= nrm <= K * K /\ nsq x' = 1.
+Proof.
+  intros X Y A K x nrm x' HK HB Hx E. rewrite gen_pm_normal_step_is_model in E.
+  assert (HB2 : forall z : X, nsq (adj A (A z)) <= (K * K) * (K * K) * nsq z).
+  { intros z. apply (Bn_bound X Y A (K * K)); auto. nra. }
+  pose proof (pm_loop_bounded X (fun z => adj A (A z)) (K * K) ltac:(nra) HB2 1 x [nrm] Hx) as Hb.
+  unfold pmn_step in E. numR. fold (nsq (adj A (A x))) in E.
+  destruct (Reqb_spec (sqrt (nsq (adj A (A x)))) 0) as [|Hn]; [discriminate|].
+  injection E as <- <-. split.
+  - assert (G : PMloop X (fun z => adj A (A z)) 1 x = Some [sqrt (nsq (adj A (A x)))]).
+    { unfold PMloop; cbn [pmn_loop]. unfold pmn_step. numR. fold (nsq (adj A (A x))).
+      destruct (Reqb_spec (sqrt (nsq (adj A (A x)))) 0); [contradiction|]. reflexivity. }
+    specialize (Hb G). inversion Hb; subst; auto.
+  - apply normalize_unit; auto.
+Qed.
